@@ -489,6 +489,47 @@ class NotEvaluable(Exception):
     pass
 
 
+def repo_prims(repo, base=None, unroll=64):
+    """primitive hook for eval_exact that gives a call of a repository function (static method / module function kept as a
+    `call` node because it is part of the frozen inventory) the meaning of its own extracted return term: the term is derived
+    once per callee with symbolic arguments and executed exactly on the evaluated actuals.  `base` is consulted first."""
+    cache = {}
+
+    def prims(t, env):
+        if base is not None:
+            v = base(t, env)
+            if v is not None:
+                return v
+        if t[0] != "call" or not isinstance(t[1], str) or t[1].startswith(".") or "." not in t[1]:
+            return None
+        name = t[1]
+        if name not in cache:
+            mod, _, q = name.partition(".")
+            cache[name] = None
+            try:
+                fn = repo.func(mod, q)
+            except Exception:
+                fn = None
+            if fn is not None and not fn.args.vararg and not fn.args.kwarg:
+                names = [a.arg for a in fn.args.args]
+                if names and names[0] in ("self", "cls"):
+                    names = None
+                if names is not None:
+                    syms = [T.sym("NUM_@%s@%d" % (name, i)) for i in range(len(names))]
+                    try:
+                        cache[name] = (syms, ret_term(repo, mod, q, arg_terms=dict(zip(names, syms)), unroll=unroll))
+                    except Exception:
+                        cache[name] = None
+        ent = cache[name]
+        if ent is None or len(t) - 2 != len(ent[0]):
+            return None
+        e2 = {"$memo": {}}
+        for s_, a_ in zip(ent[0], t[2:]):
+            e2[s_] = eval_exact(a_, env, prims)
+        return eval_exact(ent[1], e2, prims)
+    return prims
+
+
 def eval_exact(t, env=None, prims=None):
     """exact evaluation (Fractions / bools) of a closed term built from numbers, env symbols, + * **, floor, mod, int,
     abs, comparisons, and/or/not and phi; raises NotEvaluable naming the first construct that is none of these.
